@@ -691,18 +691,31 @@ func PrintAllTypes() {
 func PrintTargetClassExtends() {
 	className := getTargetClass()
 
-	for classNode, parents := range base.ClassInheritanceMap {
-		if classNode.Class == className {
-			for _, parent := range parents {
-				switch parent.Class {
-				case "":
-					fmt.Println("Object")
-				default:
-					fmt.Println(parent.Class)
-				}
-			}
+	// several frames may hold a class of this name: pick the first frame in
+	// string order rather than whichever the map yields first
+	var target *base.ClassNode
 
-			return
+	for classNode := range base.ClassInheritanceMap {
+		if classNode.Class != className {
+			continue
+		}
+
+		if target == nil || classNode.Frame < target.Frame {
+			node := classNode
+			target = &node
+		}
+	}
+
+	if target == nil {
+		return
+	}
+
+	for _, parent := range base.ClassInheritanceMap[*target] {
+		switch parent.Class {
+		case "":
+			fmt.Println("Object")
+		default:
+			fmt.Println(parent.Class)
 		}
 	}
 }
